@@ -183,12 +183,70 @@ def negTyped : ETyped → ETyped
   | .float m e => .float (-m) e
   | t => t
 
-/-- `Nodes.typed_value` on a text.  Modelled classes (checked exhaustively against the real
-function for short texts by the harness): true/false in any case; `None`; decimal int and
-positional float literals with one optional sign; words (a letter or `_` first, then letters,
-digits, `_`, blank, `-`, `.`) and the empty text, which stay text.  Everything else
-(quotes, brackets, exponents, underscores in numbers, …) is `unmodelled`. -/
+/-- A Python string literal in its simplest form: `q body q` with `q` one of `'` `"` and a body free
+of that quote, of backslashes and of control characters.  `ast.literal_eval` yields the BODY (a
+`str`), so `Nodes.typed_value` classes the text as text, and `wrap_type` / `make_new_node` then wrap
+the SUPPLIED text — quotation marks included (`PlainScalarString(value)`, not `…(ast_value)`). -/
+def isQuotedLit (s : Str) : Bool :=
+  match s with
+  | q :: r =>
+    (q = '\'' || q = '"') && r.getLast? = some q &&
+      r.dropLast.all (fun x => x != q && x != '\\' && x.toNat ≥ 32)
+  | [] => false
+
+/-- the body of a quoted literal (what `ast.literal_eval` yields for it) -/
+def quotedBody (s : Str) : Str := (s.drop 1).dropLast
+
+def isHexDigit (c : Char) : Bool := isDigit c || ('a' ≤ c && c ≤ 'f') || ('A' ≤ c && c ≤ 'F')
+
+/-- `0x…` / `0o…` / `0b…` with at least one digit of the base and nothing else (no `_`). -/
+def isPrefixedInt (s : Str) : Bool :=
+  match s with
+  | '0' :: b :: ds =>
+    !ds.isEmpty &&
+      (((b = 'x' || b = 'X') && ds.all isHexDigit) ||
+       ((b = 'o' || b = 'O') && ds.all (fun c => '0' ≤ c && c ≤ '7')) ||
+       ((b = 'b' || b = 'B') && ds.all (fun c => c = '0' || c = '1')))
+  | _ => false
+
+/-- a decimal integer literal `0 | [1-9][0-9]*` of at most 15 digits -/
+def isPlainDecimal (s : Str) : Bool :=
+  !s.isEmpty && s.length ≤ 15 && s.all isDigit && (s = ['0'] || s.head? != some '0')
+
+/-- **Integer look-alikes**: texts that `ast.literal_eval` reads as an `int` but `int(text)` rejects
+(`ValueError`) — hexadecimal / octal / binary literals with one optional sign (`0x1F`, `-0o17`,
+`0b101`), a parenthesised decimal (`(1)`, `(-12)`), a sign separated from its decimal by one blank
+(`- 5`).  `wrap_type` builds `ScalarInt(text)`, which fails; `make_new_node` falls back to
+`PlainScalarString(text)`: the value stays the TEXT. -/
+def isIntLookalike (s : Str) : Bool :=
+  let unsigned : Str := match s with
+    | '-' :: r => r
+    | '+' :: r => r
+    | r => r
+  isPrefixedInt unsigned ||
+  (match s with
+   | '(' :: r =>
+     r.getLast? = some ')' &&
+       (let body := r.dropLast
+        isPlainDecimal body || (match body with
+          | '-' :: b => isPlainDecimal b
+          | '+' :: b => isPlainDecimal b
+          | _ => false))
+   | '-' :: ' ' :: r => isPlainDecimal r
+   | '+' :: ' ' :: r => isPlainDecimal r
+   | _ => false)
+
+/-- `Nodes.typed_value` on a text, as far as `wrap_type` / `make_new_node` care.  Modelled classes
+(checked exhaustively against the real function for short texts by the harness): true/false in any
+case; `None`; decimal int and positional float literals with one optional sign; words (a letter or
+`_` first, then letters, digits, `_`, blank, `-`, `.`) and the empty text, which stay text; and two
+classes of Python literals that END AS TEXT although `literal_eval` accepts them: simple quoted
+string literals (`isQuotedLit`: the literal's value is the body, the node keeps the supplied text)
+and integer look-alikes (`isIntLookalike`: `literal_eval` yields an int, `int(text)` fails, the node
+keeps the text) — both are classed `.str` ("the new node holds the supplied text").  Everything
+else (brackets, exponents, underscores in numbers, escapes inside quotes, …) is `unmodelled`. -/
 def eTypedValue (s : Str) : ETyped :=
+  if isQuotedLit s || isIntLookalike s then .str else
   let low := lowerStr s
   if low = "true".toList then .bool true
   else if low = "false".toList then .bool false
@@ -310,7 +368,9 @@ def newScalar (anchored : Bool) (v : Scalar) (fmt : Fmt) : Except Err Scalar :=
       | .unmodelled => .error .outOfModel
 
 /-- `Nodes.wrap_type(value)` as a scalar (after `fixes/C09-1.patch`; the pinned code wraps
-`ScalarBoolean(bool(value))`, i.e. `True` for the text `false`). -/
+`ScalarBoolean(bool(value))`, i.e. `True` for the text `false`; and after `fixes/C09-2.patch`: for an
+integer look-alike the pinned code lets the `ValueError` of `ScalarInt(text)` escape, the repaired
+code keeps the text as `make_new_node` does). -/
 def wrapType (v : Scalar) : Except Err Scalar :=
   match v with
   | .opaque _ => .error .outOfModel
